@@ -35,6 +35,26 @@ type S struct {
 	Opts repl.Options
 }
 
+// limitWriter keeps the first outputLimit bytes a session prints. A generated program can print a string of hundreds of
+// megabytes in a loop: in the REPL that goes to the terminal, here it would pile up in the test process.
+type limitWriter struct {
+	buf       *bytes.Buffer
+	truncated bool
+}
+
+const outputLimit = 16 << 20
+
+func (w *limitWriter) Write(p []byte) (int, error) {
+	if room := outputLimit - w.buf.Len(); len(p) > room {
+		w.truncated = true
+		if room > 0 {
+			w.buf.Write(p[:room])
+		}
+		return len(p), nil
+	}
+	return w.buf.Write(p)
+}
+
 type Config struct {
 	NoReg       bool
 	MaxDepth    int
@@ -46,8 +66,9 @@ func New(c Config) *S {
 	Init()
 	st := eval.NewState()
 	buf := &bytes.Buffer{}
-	st.Out = buf
-	st.LogOut = buf
+	lw := &limitWriter{buf: buf}
+	st.Out = lw
+	st.LogOut = lw
 	st.NoLog = true
 	st.NoReg = c.NoReg
 	if c.MaxDepth > 0 {
@@ -91,6 +112,10 @@ func (s *S) Run(src string) Res {
 	var delta string
 	if len(all) >= before {
 		delta = string(all[before:])
+	}
+	if lw, ok := s.St.Out.(*limitWriter); ok && lw.truncated {
+		// what was printed is incomplete: comparisons treat the input like one stopped by the allocation guard
+		errs = append(errs, "verif: output truncated, would exceed memory of the harness")
 	}
 	return Res{Out: delta, Echo: echo.String(), Errs: errs, Panicked: panicked, Cont: cont, Fmt: formatted}
 }
@@ -186,6 +211,9 @@ func CompareRuns(inputs []string, a, b []Res, ga, gb string, nameA, nameB string
 		if TimedOut(x) || TimedOut(y) {
 			return "" // a deadline fired: whatever follows depends on timing, the case is inconclusive
 		}
+		if MemoryRefused(x) || MemoryRefused(y) {
+			return "" // the allocation guard fired: it depends on how much garbage the process holds at that moment
+		}
 		switch {
 		case x.Out != y.Out:
 			return fmt.Sprintf("input #%d %q prints\n  %q with %s but\n  %q with %s", i, inputs[i], x.Out, nameA, y.Out, nameB)
@@ -207,6 +235,16 @@ func CompareRuns(inputs []string, a, b []Res, ga, gb string, nameA, nameB string
 		return fmt.Sprintf("final globals differ:\n--- %s\n%s--- %s\n%s", nameA, ga, nameB, gb)
 	}
 	return ""
+}
+
+// MemoryRefused reports whether the input was stopped by the allocation guard.
+func MemoryRefused(r Res) bool {
+	for _, e := range r.Errs {
+		if strings.Contains(e, "would exceed memory") {
+			return true
+		}
+	}
+	return strings.Contains(r.Out, "would exceed memory") || strings.Contains(r.Echo, "would exceed memory")
 }
 
 // TimedOut reports whether the input was stopped by the evaluation deadline.
